@@ -224,15 +224,25 @@ fn stage2_tables(ctx: &Ctx) -> (u64, u64, Vec<Bad>) {
     for lit in [660., 1080., 1920., 3e3, 7.7e3, 13.2e3, 20e3, 53e3, 81e3, 181e3, 554e3, 19e6, 156e6, 10e9, 136e9, 1500e9, 49e12, 40e3, 270e3, 8e6, 450e3, 300e6, 1.2e9, 8e9, 640e9, 1.4e12, 2.5e12, 5e12, 10e12, 126e3, 2.6e9, 32e9] {
         grid.push(lit);
     }
+    // requests far above the last row (the nearest row is the last one)
+    grid.extend([1e14, 1e15, 1e16, 1e18]);
     let mut rows_shared = std::collections::BTreeSet::new();
     let mut rows_pm1 = std::collections::BTreeSet::new();
     let zn = ZmodN::new(rm::w_to(&((W::ONE << 500) - W::from_digit(3))));
     for &b2 in &grid {
         ev += 2;
-        let (rep, d1, d2) = params::stage2_params(b2);
-        rows_shared.insert((rep as u64, d1, d2));
-        let ((rep, d1, d2), _) = pollard_pm1::verif_access2::stage2_params(b2);
-        rows_pm1.insert((rep as u64, d1, d2));
+        match guarded(|| params::stage2_params(b2)) {
+            Ok((rep, d1, d2)) => {
+                rows_shared.insert((rep as u64, d1, d2));
+            }
+            Err(e) => bad.push((format!("table=params;what=selection-panic;site={}", e.site), format!("params::stage2_params({:e}) panicked: {}", b2, e.short()))),
+        }
+        match guarded(|| pollard_pm1::verif_access2::stage2_params(b2)) {
+            Ok(((rep, d1, d2), _)) => {
+                rows_pm1.insert((rep as u64, d1, d2));
+            }
+            Err(e) => bad.push((format!("table=pm1;what=selection-panic;site={}", e.site), format!("pollard_pm1 stage2_params({:e}) panicked: {}", b2, e.short()))),
+        }
     }
     for &(rep, d1, d2) in &rows_shared {
         ev += 1;
